@@ -55,6 +55,19 @@ CLAIMED["C15"] = {
     "design_ref": "7 (C15)",
 }
 
+CLAIMED["C14"] = {
+    "technique": "Coq metatheory proved once for any scanner table (stack discipline, begin/end pairing, found/foundAt offsets, rewinds, termination potential) + finite obligation table_ok discharged by vm_compute on the 160 step functions regenerated from scanner/*.go by go2coq; lexeme-stream correspondence of the extracted scanner model against scanner.NewJApiScanner().Next()",
+    "text": "lexemes_in_bounds_and_ordered holds for every byte string and every len-sane schema library on the table translated from the current source; keyword spelling, body = one library value and trivia-only are decided by the executable statement evaluated on the implementation's streams (token-alphabet enumeration, fixture prefixes, mutations) with the model agreeing lexeme for lexeme.",
+    "note": "Trusted: Coq kernel + vm_compute, go2coq (step functions -> decision trees), the hand-written driver model coq/model/ScannerSem.v (tied by correspondence), extraction, harness, the schema library as Len() oracle (hypothesis len_sane). The typing inference is untrusted (only checked).",
+    "design_ref": "5.2, 7 (C14)",
+}
+CLAIMED["C01"] = {
+    "technique": "Coq theorem scan_total (no empty-stack Pop, no underflow, no out-of-range index/slice, bounded re-dispatch, termination by a potential function) for the regenerated scanner table; crash/hang search of the whole pipeline in isolated subprocesses with the model-predicted hostile shapes (include graphs, macro graphs, deep nesting)",
+    "text": "The scanner half is a theorem for all byte strings; the core/catalog half is decided by the correspondence of the core model (directive tree, includes, macros) plus subprocess runs that observe panics, fatal stack overflows, hangs and runtime faults reported as diagnostics.",
+    "note": "Trusted: as C14; Go runtime stack limits and the schema library's own totality are observed, not proved. Known finding: exponential macro expansion (not prompt).",
+    "design_ref": "7 (C01)",
+}
+
 NOT_YET = {
 }
 
